@@ -294,6 +294,26 @@ class ArrowDictionary(ArrowDataType):
             ordered=pyarrow_dtype.ordered,  # type: ignore
         )
 
+    def coerce(self, data_container: PandasObject) -> PandasObject:
+        coerced = super().coerce(data_container)
+        if isinstance(coerced, pd.DataFrame):
+            for i in range(coerced.shape[1]):
+                coerced.isetitem(i, self._cast(coerced.iloc[:, i]))
+            return coerced
+        return self._cast(coerced)
+
+    def _cast(self, obj):
+        # pandas dictionary-encodes the values with the type that pyarrow
+        # infers and int32 indices: cast to the declared value and index type
+        if obj.dtype == self.type:
+            return obj
+        array = pd.arrays.ArrowExtensionArray(
+            obj.array.__arrow_array__().cast(self.type.pyarrow_dtype)
+        )
+        if isinstance(obj, pd.Index):
+            return pd.Index(array, name=obj.name)
+        return pd.Series(array, index=obj.index, name=obj.name)
+
 
 @Engine.register_dtype(
     equivalents=[
